@@ -21,6 +21,46 @@ def key_fn(it, res, fails):
     return set()
 
 
+def limit_part(ctx):
+    """The reported after-loop value against Polar's own termination sequence far out (n = 150, 300): the sequence
+    is what TLC validates for n <= N (up to the known lag, which does not move the limit); this step only makes
+    sure that the limit transformation returns the limit of that sequence.  Outside TLC (floating point)."""
+    run = ctx["run"]
+    checked = undecided = bad = 0
+    for suffix, results in ctx["results"].items():
+        for it in ctx["items"]:
+            r = results.get(it["id"], {})
+            for g, to in (r.get("term") or {}).items():
+                for pi, lim in enumerate(to.get("limit", [])):
+                    a, b = (to["far"][pi] + [None, None])[:2]
+                    if a is None or b is None or a != a or b != b:
+                        undecided += 1
+                        continue
+                    converged = abs(a - b) <= 1e-9 * (abs(b) + 1)
+                    if lim.get("inf"):
+                        checked += 1
+                        if converged:
+                            bad += 1
+                            run.violation({it["id"], f"{it['id']}:limit:{g}"},
+                                          {"clause": "after-loop value reported infinite although the sequence converges",
+                                           "program": it["text"], "goal": g, "sequence_at_150_300": [a, b], "reported": lim})
+                        continue
+                    if "q" not in lim and "approx" not in lim:
+                        undecided += 1
+                        continue
+                    L = float(F(lim["q"])) if "q" in lim else float(lim["approx"])
+                    if not converged:
+                        undecided += 1
+                        continue
+                    checked += 1
+                    if abs(L - b) > 1e-6 * (abs(b) + 1):
+                        bad += 1
+                        run.violation({it["id"], f"{it['id']}:limit:{g}"},
+                                      {"clause": "after-loop value is not the limit of the termination sequence",
+                                       "program": it["text"], "goal": g, "sequence_at_150_300": [a, b], "reported_limit": L})
+    return {"after_loop_limits_checked": checked, "after_loop_limits_undecided": undecided, "after_loop_limit_failures": bad}
+
+
 def main(tier, seed):
     quick = tier == "quick"
     items = [it for it in C.corpus_files() if "while true" not in it["text"]]
@@ -38,9 +78,9 @@ def main(tier, seed):
     gen_items = C.generated(seed, 30 if quick else 250, profile={"guard": "flag"}, ngoals=3) + \
         C.generated(seed + 1, 20 if quick else 150, profile={"guard": "counter"}, ngoals=3, prefix="genc")
     items += gen_items
-    return analysis_check("C09", tier, seed, items=items, want=["parsed", "term"], builders=[C.b_source, C.b_term],
-                          N=6 if quick else 9, timeout=120, key_fn=key_fn,
-                          assumptions=["the limit n -> infinity is not decided by the spec in this version; only the conditional sequence is"])
+    return analysis_check("C09", tier, seed, items=items, want=["parsed", "term", "after"], builders=[C.b_source, C.b_term],
+                          N=6 if quick else 9, timeout=120, key_fn=key_fn, post=limit_part,
+                          assumptions=["the limit n -> infinity is not decided by the spec: the reported after-loop value is only compared (floating point, outside TLC) with Polar's own sequence at n = 150 and 300"])
 
 
 def replay(path):
